@@ -932,7 +932,9 @@ def _cmp_results(a, b, only=None, skip_t=()):
                 if np.isnan(x) and np.isnan(y):
                     continue
                 atol = max(netmodel._atol_for(c, 1e-7), 1e-12 * colmax.get((tag.split("#")[0], c), 0.0))
-                if np.isnan(x) != np.isnan(y) or not np.isclose(x, y, rtol=1e-7, atol=atol):
+                mm = min(abs(ra.get("mdot_from_kg_per_s") or 0.0), abs(rb.get("mdot_from_kg_per_s") or 0.0)) if "mdot_from_kg_per_s" in ra else 1.0
+                rt = netmodel.flow_rtol(c, mm if np.isfinite(mm) else 1.0, 1e-7)
+                if np.isnan(x) != np.isnan(y) or not (abs(x - y) <= atol + rt * abs(y)):
                     diffs.append("%s.%s" % (tag.split("#")[0], c))
     return sorted(set(diffs))
 
